@@ -57,7 +57,7 @@ pub fn run_wire(ctx: &Ctx, rep: &mut Report) {
             peers.push(PeerSpec { addr: addr(kk), id: peer_id(kk), entry: if incoming { Entry::Incoming { at_ms: sr.range(0, 90) } /* admitted only while fewer than 4 uninterested peers exist, i.e. before the dials */ } else { Entry::Dialled { from_announce: 0 } }, make: Box::new(move |nth| if nth > 1 { None } else { Some(fuzz_leecher(c2.clone())) }), chunk: 0, pipe: 1 << 20 });
         }
         let desc = json!({"seed": seed, "pieces": np, "virtual_ms": dur, "downloaders": desc_peers});
-        let cfg = SimCfg { torrent, peers, tracker: vec![], failpoints: if sr.chance(1, 3) { Some(sr.next()) } else { None }, max_virtual_ms: dur, stop_on_extract: false, linger_ms: 0, disk_on: disk_never, seed, tracker_fn: None, driver: None };
+        let cfg = SimCfg { torrent, peers, tracker: vec![], failpoints: if sr.chance(1, 3) { Some(sr.next()) } else { None }, max_virtual_ms: dur, stop_on_extract: false, linger_ms: 0, disk_on: disk_never, seed, pre: None, tracker_fn: None, driver: None };
         rep.evaluations += 1;
         let o = run_sim(cfg, &ctx.scratch, 180);
         if o.watchdog { rep.inconclusive(format!("watchdog (scenario seed {})", seed)); continue; }
